@@ -2117,7 +2117,7 @@ pub fn check_c20(ix: &Ix<'_>, v: &mut Vec<Violation>) {
                 match t_eff {
                     None => viol(v, "C20", format!("C20/keepalive-timeout-while-disabled/{role}"), format!("keep-alive 0 and no server override, yet the connection was ended by a keep-alive timeout at {ts} ms"), *sq),
                     Some(t) => {
-                        if ts - last + 1000 < t {
+                        if ts - last < t {
                             viol(v, "C20", format!("C20/live-peer-timed-out/{role}"), format!("keep-alive timeout at {ts} ms, but a complete packet had arrived at {last} ms (timeout in force {t} ms)"), *sq);
                         }
                     }
@@ -2131,7 +2131,15 @@ pub fn check_c20(ix: &Ix<'_>, v: &mut Vec<Violation>) {
                 let mut pts = arrivals.clone();
                 pts.push(end_ms);
                 for w in pts.windows(2) {
-                    if w[1] - w[0] > t + 2000 {
+                    // while a handler is busy the service is not ready, reading is paused and the timers are
+                    // stopped on purpose (packets may sit unread in the socket): only judge idle handlers
+                    let busy = ix.gates.iter().any(|g| {
+                        g.conn == conn
+                            && matches!(g.kind, GateKind::Publish | GateKind::Proto)
+                            && t_of(g.enter) <= w[0] + t + 2000
+                            && g.exit.as_ref().map(|x| t_of(x.0)).or(g.dropped.map(t_of)).is_none_or(|x| x > w[0])
+                    });
+                    if w[1] - w[0] > t + 2000 && !busy {
                         let ended_in_time = stop_ms.is_some_and(|s| s <= w[0] + t + 2000) || ix.conn_done.iter().any(|c| c.1 == conn && t_of(c.0) <= w[0] + t + 2000);
                         if !ended_in_time {
                             viol(v, "C20", format!("C20/idle-peer-not-timed-out/{role}"), format!("no complete packet between {} ms and {} ms (keep-alive timeout in force {t} ms) and the connection was not ended", w[0], w[1]), ix.last_seq);
